@@ -343,7 +343,7 @@ def run(chk, ctx):
     inner = [c for arm, cs in A.inner_loop_calls.items() if arm and R.get(arm[0]) == "fetch" for c in cs]
     evals = [a for n, a in inner if n == "stmt::DataEntry::eval"]
     exts = [a for n, a in inner if n.endswith("iter::Extend<T>>::extend")]
-    ITER = "IntoIterator::into_iter((STMT as DataRow).data)"
+    ITER = "[T]::iter((STMT as DataRow).data)"   # `for e in data` / `data.iter()` / a slice parameter read alike
     good = evals == [["some!(Iterator::next(%s))" % ITER, "ctx"]] and exts == [["Vec::new()", "try(DataEntry::eval(some!(Iterator::next(%s)), ctx))" % ITER]]
     chk.require(good, "AUT", "AUT:2:entries-evaluated-in-slice-order", "for entry in data { entries.extend(entry.eval(ctx)?) }", "row loop evaluates %s and extends with %s" % (evals, exts))
     # 3. let
